@@ -43,3 +43,30 @@ func VerifPointOp(op string, a, b []byte) (res []byte, ok bool) {
 	}
 	panic("VerifPointOp: unknown operation " + op)
 }
+
+// VerifScalarMult runs the scalar multiplications of the internal package: "base" ([a]B), "var" ([a]A),
+// "double" ([a]A + [b]B, variable time), "clamp" ([clamp(a)]B, a being 32 arbitrary bytes). Scalars are
+// 32-byte little-endian strings, reduced modulo the group order first (except for "clamp"); A is a point
+// encoding. ok is false when A does not decode.
+func VerifScalarMult(op string, a, A, b []byte) (res []byte, ok bool) {
+	p := edwards25519.NewGeneratorPoint()
+	if op == "var" || op == "double" {
+		var err error
+		if p, err = new(edwards25519.Point).SetBytes(A); err != nil {
+			return nil, false
+		}
+	}
+	sa := edwards25519.NewScalar().SetBytes(a)
+	switch op {
+	case "base":
+		return new(edwards25519.Point).ScalarBaseMult(sa).Bytes(), true
+	case "var":
+		return new(edwards25519.Point).ScalarMult(sa, p).Bytes(), true
+	case "double":
+		sb := edwards25519.NewScalar().SetBytes(b)
+		return new(edwards25519.Point).VarTimeDoubleScalarBaseMult(sa, p, sb).Bytes(), true
+	case "clamp":
+		return new(edwards25519.Point).ScalarBaseMult(edwards25519.NewScalar().SetBytesWithClamping(a)).Bytes(), true
+	}
+	panic("VerifScalarMult: unknown operation " + op)
+}
